@@ -33,4 +33,23 @@ theorem append_fixup_is_model (s : Cur) (k : Nat) :
        repeat' split
        all_goals first | rfl | omega | (simp only [Prod.mk.injEq]; omega))
 
+/-- `Draw::draw` paints the items `item_cursor .. item_cursor + rowsDrawn` (none when the range is empty) -/
+theorem draw_range_is_model (s : Cur) (sh : Nat) :
+    (CursorFns.drawRange s.ic s.n sh).1 = s.ic ∧
+    (CursorFns.drawRange s.ic s.n sh).2 - (CursorFns.drawRange s.ic s.n sh).1 = rowsDrawn s sh := by
+  unfold CursorFns.drawRange rowsDrawn
+  refine ⟨?_, ?_⟩ <;> (try dsimp only) <;> first | rfl | omega
+
+/-- the `i`-th painted item is window row `i` and goes to the model's screen row -/
+theorem draw_row_is_model (s : Cur) (sh i : Nat) :
+    CursorFns.drawRow s.rev s.ic sh (s.ic + i) = (i, screenRow s sh i) := by
+  unfold CursorFns.drawRow screenRow
+  cases hr : s.rev <;> (try simp only [Bool.false_eq_true, if_false, if_true]) <;>
+    (repeat' split) <;> (first | rfl | omega | (simp only [Prod.mk.injEq]; omega))
+
+/-- the pointer label goes to the window row that equals `line_cursor` -/
+theorem pointer_row_is_model (i lc : Nat) : CursorFns.pointerHere i lc ↔ i = lc := by
+  unfold CursorFns.pointerHere
+  first | exact Iff.rfl | omega
+
 end SkimModel.SelCursor
